@@ -443,7 +443,7 @@ func genScalarRound(g *vlib.G) {
 					if !vlib.EqVal(got, want, true) {
 						if math.IsInf(x, 0) && math.IsNaN(got) {
 							// documented: Round(±Inf) = ±Inf
-							t.FailClass("round-inf-extreme-negprec-nan", "%s(%v,%d)=%v want %v", name, x, prec, got, want)
+							classed(t, "round-inf-extreme-negprec-nan", fmt.Sprintf("%s x=%v prec=%d", name, x, prec), "%s(%v,%d)=%v want %v", name, x, prec, got, want)
 							continue
 						}
 						t.Failf("%s(%v,%d)=%s want %s", name, x, prec, vlib.B64(got), vlib.B64(want))
